@@ -27,6 +27,10 @@ func Count(v reflect.Value) int {
 	return v.Len()
 }
 
+// unhashableItem is the key Distinct uses for an item whose
+// type can't be a map key.
+type unhashableItem string
+
 // Distinct returns the values passed in with any duplicates removed.
 func Distinct(v reflect.Value) interface{} {
 	v = jtypes.Resolve(v)
@@ -53,6 +57,20 @@ func Distinct(v reflect.Value) interface{} {
 					continue
 				}
 				visited[mapItem] = struct{}{}
+				distinctValues = reflect.Append(distinctValues, item)
+
+				continue
+			}
+
+			if !item.Type().Comparable() {
+				// Arrays and functions can't be map keys either.
+				// Use their string form, typed so that it can't
+				// be mistaken for a string item.
+				key := unhashableItem(fmt.Sprint(item.Interface()))
+				if _, ok := visited[key]; ok {
+					continue
+				}
+				visited[key] = struct{}{}
 				distinctValues = reflect.Append(distinctValues, item)
 
 				continue
